@@ -4,7 +4,7 @@ Every generator returns bytes; nesting generators take the depth d and build the
 encoding a conforming encoder would produce for a value nested d levels deep
 (so the input is VALID unless stated: the decoder's only reason to refuse it is
 the stack limit)."""
-import os, resource, signal, subprocess
+import os, re, resource, signal, subprocess
 
 
 # ---------------------------------------------------------------- BER helpers
@@ -15,14 +15,15 @@ def ber_len(n):
     return bytes([0x80 | len(b)]) + b
 
 
-def ber_nest_def(d, heads, innermost):
+def ber_nest_def(d, heads, innermost, prefix=b""):
     """d levels; every level wraps the inner encoding into the TLV headers `heads`
-    (list of tag octets, outermost first), definite lengths"""
+    (list of tag octets, outermost first), definite lengths; `prefix` = content octets
+    that precede the inner encoding at every level"""
     parts = []          # built inside-out as a list of header chunks, reversed at the end
     size = len(innermost)
     for _ in range(d):
         for h in reversed(heads):
-            hdr = h + ber_len(size)
+            hdr = h + ber_len(size + len(prefix)) + prefix
             parts.append(hdr)
             size += len(hdr)
     return b"".join(reversed(parts)) + innermost
@@ -105,7 +106,193 @@ def gen_nest():
         "ber": lambda d: (lambda inner: b"\x30" + ber_len(3 + len(inner)) + b"\x01\x01\xff" + inner)(ber_nest_def(d, [b"\xbf\x1f"], b"\x05\x00")),
         "beri": lambda d: b"\x30\x80\x01\x01\xff" + ber_nest_indef(d, [b"\xbf\x1f"], b"\x05\x00") + b"\x00\x00",
     }
+    # E ::= SEQUENCE { a BOOLEAN, ..., e E OPTIONAL }: recursion through an extension addition
+    # (an open type in PER and OER: every level is length-prefixed and copied)
+    g["E"] = {
+        "ber": lambda d: ber_nest_def(d, [b"\x30"], b"\x30\x03\x01\x01\xff", prefix=b"\x01\x01\xff"),
+        "beri": lambda d: b"\x30\x80\x01\x01\xff" * d + b"\x30\x03\x01\x01\xff" + b"\x00\x00" * d,
+        "uper": uper_E,
+        "oer": oer_E,
+        "xer": lambda d: b"<E>" + b"<a><true/></a><e>" * d + b"<a><true/></a>" + b"</e>" * d + b"</E>",
+    }
     return g
+
+
+def uper_len_prefixed(content):
+    """X.691 10.9 length determinant (octets) + content, with 16K fragmentation"""
+    out = []
+    i, rem = 0, len(content)
+    while rem >= 16384:
+        m = min(4, rem // 16384)
+        out.append(bytes([0xC0 | m]) + content[i:i + m * 16384])
+        i += m * 16384
+        rem -= m * 16384
+    if rem < 128:
+        out.append(bytes([rem]))
+    else:
+        out.append(bytes([0x80 | (rem >> 8), rem & 0xFF]))
+    out.append(content[i:])
+    return b"".join(out)
+
+
+def uper_E(d):
+    """ext bit, a, [count of additions (normally small length 1), bitmap '1', open type]"""
+    cur = bytes([0x40])                         # innermost: bits 0 1 -> one octet
+    for _ in range(d):
+        body = uper_len_prefixed(cur)           # octets, to be placed after 10 header bits
+        bits = "1" + "1" + "0000000" + "1"
+        v = (int(bits, 2) << (8 * len(body))) | int.from_bytes(body, "big")
+        nb = 10 + 8 * len(body)
+        pad = -nb % 8
+        cur = (v << pad).to_bytes((nb + pad) // 8, "big")
+    return cur
+
+
+def oer_len(n):
+    if n < 128:
+        return bytes([n])
+    b = n.to_bytes((n.bit_length() + 7) // 8, "big")
+    return bytes([0x80 | len(b)]) + b
+
+
+def oer_E(d):
+    parts = []
+    size = 2                                    # innermost 00 ff
+    for _ in range(d):
+        hdr = b"\x80\xff\x02\x07\x80" + oer_len(size)
+        parts.append(hdr)
+        size += len(hdr)
+    return b"".join(reversed(parts)) + b"\x00\xff"
+
+
+# ---------------------------------------------------------------- type graphs of the check's modules
+# node ids as in coq/Rt/Depth.v; kind selects the decoder; "tagged" = entered through a tagged
+# member / has own tags (matters for CHOICE_decode_ber only); edges by syntax class:
+#   "direct" edges exist in every syntax; "ext" edges go through the open-type reader in uper/oer
+NODES = {
+    0: ("T", "seq", True), 1: ("L", "seqof", True), 2: ("S", "setof", True), 3: ("C", "choice", True),
+    4: ("X", "seq", True), 5: ("M", "choice", False), 6: ("M.s", "seq", True), 7: ("E", "seq", True),
+    8: ("opentype", "opentype", False),
+}
+EDGES = [(0, 0), (1, 1), (2, 2), (3, 3), (4, 4), (5, 6), (6, 5), (7, 7), (7, 8), (8, 7)]
+ROOT = {"T": 0, "L": 1, "S": 2, "C": 3, "X": 4, "M": 5, "E": 7}
+
+
+def scan_guards(skel, table):
+    """re-extract the guard facts from the skeleton sources: function -> class"""
+    facts = {}
+    for fn, ent in table["functions"].items():
+        path = os.path.join(skel, ent["file"])
+        try:
+            src = open(path, errors="replace").read()
+        except OSError:
+            facts[fn] = "missing-file"
+            continue
+        src = re.sub(r"/\*.*?\*/", " ", src, flags=re.S)
+        m = re.search(r"^%s\s*\(" % re.escape(fn), src, flags=re.M)
+        if not m:
+            facts[fn] = "missing-function"
+            continue
+        i = src.index("{", m.end())
+        depth, j = 0, i
+        while j < len(src):
+            if src[j] == "{":
+                depth += 1
+            elif src[j] == "}":
+                depth -= 1
+                if depth == 0:
+                    break
+            j += 1
+        body = src[i:j]
+        used = re.search(r"if\s*\(\s*ASN__STACK_OVERFLOW_CHECK\s*\(", body)
+        if used:
+            # the failure must follow: ASN__DECODE_FAILED / return -1 / RETURN(RC_FAIL) within the next statement
+            tail = body[used.end():used.end() + 160]
+            facts[fn] = "direct" if re.search(r"ASN__DECODE_FAILED|return\s+-1|RETURN\s*\(\s*RC_FAIL|RC_FAIL", tail) else "direct-no-failure"
+        elif "ASN__STACK_OVERFLOW_CHECK" in body:
+            facts[fn] = "discarded"
+        elif re.search(r"\bber_check_tags\s*\(", body):
+            cond = re.search(r"if\s*\(\s*tag_mode\s*\|\|\s*td->tags_count\s*\)\s*\{[^}]*?ber_check_tags", body, flags=re.S)
+            facts[fn] = "cond:ber_check_tags" if cond else "via:ber_check_tags"
+        else:
+            facts[fn] = "none"
+    return facts
+
+
+def guarded_nodes(facts, table, syn):
+    """the set G of the model for one syntax, from the extracted facts"""
+    g = []
+    direct_ok = lambda fn: facts.get(fn) == "direct"
+    for nid, (name, kind, tagged) in NODES.items():
+        fn = table["decoder_of"].get(kind, {}).get(syn)
+        if fn is None:
+            continue
+        f = facts.get(fn)
+        if f == "direct":
+            g.append(nid)
+        elif f and f.startswith("via:") and direct_ok(f[4:]):
+            g.append(nid)
+        elif f and f.startswith("cond:") and direct_ok(f[5:]) and tagged:
+            g.append(nid)
+    return sorted(g)
+
+
+def edges_for(syn):
+    if syn in ("uper", "oer"):
+        return [e for e in EDGES if e != (7, 7)]
+    return [e for e in EDGES if 8 not in e]
+
+
+def reach(edges, root):
+    seen, todo = {root}, [root]
+    while todo:
+        u = todo.pop()
+        for a, b in edges:
+            if a == u and b not in seen:
+                seen.add(b)
+                todo.append(b)
+    return seen
+
+
+def some_cycle(edges, root):
+    """a cycle through root, as the node list root..last (last -> root is an edge)"""
+    best = None
+    def dfs(u, path, seen):
+        nonlocal best
+        for a, b in edges:
+            if a != u:
+                continue
+            if b == root:
+                if best is None or len(path) < len(best):
+                    best = list(path)
+            elif b not in seen:
+                dfs(b, path + [b], seen | {b})
+    dfs(root, [root], {root})
+    return best or [root]
+
+
+def find_unguarded_cycle(edges, guarded, root):
+    """(pre, cyc) of unguarded nodes reachable from root through unguarded nodes, or None"""
+    if root in guarded:
+        return None
+    path, on = [], set()
+
+    def dfs(u):
+        path.append(u)
+        on.add(u)
+        for a, b in edges:
+            if a != u or b in guarded:
+                continue
+            if b in on:
+                k = path.index(b)
+                return path[:k], path[k:]
+            r = dfs(b)
+            if r:
+                return r
+        path.pop()
+        on.discard(u)
+        return None
+    return dfs(root)
 
 
 # ---------------------------------------------------------------- child process
